@@ -99,7 +99,7 @@ fn main() {
     ctx.assume("vref::masterfile prints RFC 1035 §5.1 / RFC 2308 §4 syntax only; an omitted class before any stated class denotes IN");
     ctx.assume("expected RDATA values are built with hickory's constructors (not its text parser) from the same typed values the printer receives");
     ctx.assume("RRsets that RFC 2181 §5.2 forbids (mixed TTL/class, two SOAs, two CNAMEs) are run but their record comparison is not judged");
-    ctx.case_timeout_s.store(60, std::sync::atomic::Ordering::Relaxed);
+    ctx.case_timeout_s.store(if thorough { 180 } else { 60 }, std::sync::atomic::Ordering::Relaxed);
 
     // ---------------------------------------------------------------------------------- valid
     let singles = alphabet::singles();
@@ -244,6 +244,7 @@ fn main() {
 
     let seeds = malformed::seeds(&w, &singles, &sub);
     ctx.set("seed_files", json!(seeds.len()));
+    eprintln!("[C20] {} seed files, {} bytes", seeds.len(), seeds.iter().map(|s| s.text.len()).sum::<usize>());
     // every seed must itself be accepted (or be a listed finding of the valid direction)
     let mut seed_ok = 0;
     ctx.with_local(|l| {
